@@ -82,6 +82,9 @@ def generate(rng, tier):
                     yield {"runs": [[s, ATTS3[1]]] * k, "columns": [2, 3, 4], "share": share}
                     yield {"runs": [["a", ATTS3[0]]] + [[s, ATTS3[1]]] * k + [[WIDE, ATTS3[2]]], "columns": [2, 3, 5],
                            "share": share}
+    for text in (WIDE * 50, "a" + WIDE * 40, WIDE * 20 + "ab" + WIDE * 25 + COMB, ("a" + WIDE) * 30):
+        yield {"runs": [[text, ATTS3[1]]], "columns": [31, 33, 45], "share": False}
+        yield {"runs": [[text[:25], ATTS3[0]], [text[25:], ATTS3[2]]], "columns": [30, 32, 63, 79], "share": False}
     nrand = 8000 if tier == "thorough" else 400
     alpha_ok = "ab " + WIDE * 3 + COMB * 2 + "中́x\u0902\u0e34"      # incl. zero-width marks of combining class 0
     for k in range(nrand):
